@@ -249,11 +249,16 @@ fn gen_custom_type_method(strct: &ast::CustomType, m: &ast::Method) -> Item {
         }
     });
 
+    // The receiver is called `this` in the generated function, unless a parameter already has that name
+    let mut this_name = String::from("this");
+    while m.params.iter().any(|p| p.name.as_str() == this_name) {
+        this_name.push('_');
+    }
     let this_ident = Pat::Ident(PatIdent {
         attrs: vec![],
         by_ref: None,
         mutability: None,
-        ident: Ident::new("this", Span::call_site()),
+        ident: Ident::new(&this_name, Span::call_site()),
         subpat: None,
     });
 
